@@ -394,6 +394,15 @@ class DataFrame:
     def tail(self, n=5):
         return self._take(range(len(self.index))[-n:] if n else [])
 
+    def squeeze(self, axis=None):
+        if len(self.index) == 1 and len(self._data) == 1:
+            return next(iter(self._data.values()))[0]
+        if len(self.index) == 1:
+            return self._row(0)
+        if len(self._data) == 1:
+            return self._col(next(iter(self._data)))
+        return self
+
     # -- iteration ------------------------------------------------------------------
     def _row(self, i, cols=None):
         cols = cols or list(self._data)
